@@ -21,6 +21,9 @@ NumericKey(k) == k \in {"uid", "length(name)"}
 CellCmp(a, b, numeric) ==
   IF numeric /\ AllDigits(a) /\ AllDigits(b)
   THEN Cmp(FromDigits([i \in 1 .. Len(a) |-> DigitVal(a[i])]), FromDigits([i \in 1 .. Len(b) |-> DigitVal(b[i])]))
+  \* non-negative decimals (an average): compared by value
+  ELSE IF numeric /\ ParseDec(a).ok /\ ParseDec(b).ok /\ ~ParseDec(a).neg /\ ~ParseDec(b).neg
+  THEN LET x == ParseDec(a) y == ParseDec(b) IN Cmp(Mul(x.num, Pow10(y.scale)), Mul(y.num, Pow10(x.scale)))
   ELSE IF a = b THEN 0 ELSE IF LexLeq(a, b) THEN -1 ELSE 1
 
 Verdict(r) ==
